@@ -160,6 +160,13 @@ func TestC03WellFormed(t *testing.T) {
 				ts := &c.SS.Types[rapid.IntRange(0, len(c.SS.Types)-1).Draw(t, "ftype")]
 				res := gen.NewResource(ts)
 				vals := gen.FillResource(t, res, ts, fmt.Sprintf("inc%d", i))
+
+				// (a resource that has no ID yet may be included like any other)
+				if rapid.IntRange(0, 7).Draw(t, "inc-noid") == 0 {
+					vals["id"] = ""
+					res.Set("id", "")
+				}
+
 				m = gen.ResModel{TS: ts, Vals: vals, Res: res}
 				arg = res
 			}
@@ -222,6 +229,27 @@ func TestC03WellFormed(t *testing.T) {
 		identifiers := c.DataKind == "identifier" || c.DataKind == "identifiers"
 		if verr := oracle.ValidateStructure(ds, c.PrePath, identifiers); verr != nil {
 			t.Fatalf("C03 violated: %v\ncase: %s\ncalls: %v\noutput: %s", verr, c, calls, out)
+		}
+
+		// The same document marshaled once more is as well-formed (what the
+		// first marshal did to the document's lists must not show).
+		var again []byte
+
+		if p := oracle.Try(func() { again, err = jsonapi.MarshalDocument(c.Doc, c.URL) }); p != nil || err != nil {
+			t.Fatalf("C03 violated: a second MarshalDocument of the same document: %v %v\ncase: %s\ncalls: %v", p, err, c, calls)
+		}
+
+		ds2, derr2 := oracle.DecodeDocument(again)
+		if derr2 == nil {
+			derr2 = oracle.ValidateStructure(ds2, c.PrePath, identifiers)
+		}
+
+		if derr2 != nil {
+			t.Fatalf("C03 violated: second marshal of the same document: %v\ncase: %s\ncalls: %v\nfirst:  %s\nsecond: %s", derr2, c, calls, out, again)
+		}
+
+		if len(ds2.Included) != len(ds.Included) {
+			t.Fatalf("C03 violated: the second marshal of the same document includes %d resources, the first %d\ncase: %s\ncalls: %v\nfirst:  %s\nsecond: %s", len(ds2.Included), len(ds.Included), c, calls, out, again)
 		}
 
 		// No (type, id) pair twice across primary data and included.
